@@ -512,3 +512,66 @@ def departure_doc(xml_text, budget=1, tag=''):
         n['attrs'] = new_attrs
     dom = z3.And(*[sel.domain for sel in sels]) if sels else z3.BoolVal(True)
     return doc, flags, sels, dom
+
+
+# ------------------------------------------------------------------------------------------------ C14: injection sites
+
+IDENT_DOM = ['Item', 'type', 'Self', 'self', 'async', 'my-name', 'a.b', 'été']
+LIT_DOM = ['plain', 'a"b', 'a\\b', 'a\\nb', 'a{b}', '"; fn marker() {} //']
+URI_DOM = ['http://example.com/orders/v1', 'http://example.com/a"b', 'http://example.com/x{y}', 'http://example.com/a+b~c', 'urn:x:"q"']
+URL_DOM = ['http://example.com/orders', 'http://example.com/a"b', 'http://example.com/a\\b', 'http://example.com/{x}']
+DOC_DOM = ['plain words', 'two\nlines', 'cr\rhere', 'a */ b', '"quoted" \\ {braces}']
+
+
+def _site(name, dom, active):
+    return Selector(name, dom) if name in active else dom[0]
+
+
+def inject_xsd(tier='quick', active=()):
+    """every place where schema text of an XSD flows into the output is a symbolic site (those named in `active`)"""
+    tname = _site('site_type_name', IDENT_DOM, active)
+    mname = _site('site_member_name', IDENT_DOM, active)
+    aname = _site('site_attribute_name', IDENT_DOM, active)
+    sname = _site('site_simple_type_name', ['Code'] + IDENT_DOM[1:5], active)
+    ev = _site('site_enumeration_value', LIT_DOM, active)
+    fv = _site('site_facet_value', ['3', ABSENT, '3); fn marker() {} //', '-1', 'x', ' 12 '], active)
+    doc = _site('site_documentation', DOC_DOM, active)
+    uri = _site('site_namespace_uri', URI_DOM, active)
+    st = ST(sname, 'xs:string', {'maxLength': fv}, enums=[ev], doc=doc)
+    inner = CT(tname, Seq([El('v', 'xs:string')]))
+    tref = smap(lambda n: 't:' + n, tname.sym()) if isinstance(tname, Selector) else 't:' + tname
+    outer = CT('Outer', Seq([El(mname, tref), El('plain', 'xs:int')]), attrs=[Attr(aname, 'xs:string')], doc=doc)
+    tagged = CT('Tagged', None, attrs=[Attr('k', 'xs:string')], doc=doc)
+    sch = Schema(uri, [st, inner, outer, tagged], prefixes={'t': uri})
+    sels = [x for x in (tname, mname, aname, sname, ev, fv, doc, uri) if isinstance(x, Selector)]
+    sc = Scenario('inject-xsd:' + '+'.join(x.name[5:] for x in sels), {'a.xsd': sch}, 'a.xsd', sels)
+    return sc, Info(sites=sels, literal_sites={'site_enumeration_value', 'site_namespace_uri', 'site_member_name', 'site_attribute_name', 'site_type_name', 'site_simple_type_name'},
+                    also_benign={'site_facet_value': [1]})
+
+
+def inject_wsdl(tier='quick', active=()):
+    opn = _site('site_operation_name', ['GetQuote'] + IDENT_DOM[1:], active)
+    svc = _site('site_service_name', ['OrdersService'] + IDENT_DOM[1:], active)
+    eln = _site('site_element_name', ['GetQuoteRequest'] + IDENT_DOM[1:6], active)
+    hpart = _site('site_header_part_name', ['auth'] + IDENT_DOM[1:6], active)
+    loc = _site('site_location', URL_DOM, active)
+    act = _site('site_soap_action', URL_DOM, active)
+    els = [GEl(eln, content=Seq([El('symbol', 'xs:string')])), body_el('GetQuoteResponse'), GEl('AuthHeader', content=Seq([El('token', 'xs:string')]))]
+    req_ref = smap(lambda e: 'tns:' + e, eln.sym()) if isinstance(eln, Selector) else 'tns:' + eln
+    msgs = [Msg('GetQuoteIn', [('parameters', req_ref), (hpart, 'tns:AuthHeader')]), Msg('GetQuoteOut', [('parameters', 'tns:GetQuoteResponse')])]
+    op = Op(opn, 'tns:GetQuoteIn', 'tns:GetQuoteOut', body_parts='parameters', headers=[hpart], action=act)
+    sch = Schema(NSW, els, prefixes={})
+    w = Wsdl(NSW, sch, msgs, [op], service=svc, location=loc)
+    sels = [x for x in (opn, svc, eln, hpart, loc, act) if isinstance(x, Selector)]
+    sc = Scenario('inject-wsdl:' + '+'.join(x.name[5:] for x in sels), {'svc.wsdl': w.tree()}, 'svc.wsdl', sels)
+    return sc, Info(sites=sels, literal_sites={'site_location', 'site_soap_action', 'site_element_name'})
+
+
+def inject_all(tier='quick'):
+    out = []
+    for grp in (('site_type_name', 'site_simple_type_name'), ('site_member_name', 'site_attribute_name'), ('site_enumeration_value', 'site_facet_value'),
+                ('site_documentation',), ('site_namespace_uri',)):
+        out.append(inject_xsd(tier, grp))
+    for grp in (('site_operation_name', 'site_service_name'), ('site_element_name', 'site_header_part_name'), ('site_location', 'site_soap_action')):
+        out.append(inject_wsdl(tier, grp))
+    return out
